@@ -43,7 +43,7 @@ class State:
         self.reset_case()
         self.check_img = True  # C03 conditions
         self.check_fit = True  # C16 conditions
-        self.in_search_budget_default = 60_000  # points that may be spent on img contracts inside one search
+        self.in_search_budget_default = 24_000  # points that may be spent on img contracts inside one search
         self.yield_check_cap = 64  # yielded schedules fully checked per search (the rest is counted)
         self.installed = False
         self.sites = {}
@@ -398,6 +398,13 @@ def semantic_output_stationary(bounds, A_out, T):
     par = [c for c in range(nt) if np.any(At[:, c] != 0)]
     red = [c for c in range(nt) if c not in par]
     if not par or not red:
+        # documented: only parallel or only reduction dims => output stationary.  (Observation only, never judged: with
+        # a non-injective output map such as d0 - d1 the runs are not contiguous although the documented rule holds.)
+        if len(par) >= 2 and n_points(tb) <= MAX_POINTS:
+            V = box_points(tb) @ At.T
+            k, _, _ = row_keys(V)
+            if k is not None and 1 + int(np.count_nonzero(k[1:] != k[:-1])) != len(np.unique(k)):
+                ST.bump("observation:os_documented_rule_holds_but_output_runs_not_contiguous(non-injective-map)")
         return True, "vacuous"
     # injectivity of the output map on the parallel dims
     Vp = box_points([tb[c] for c in par]) @ At[:, par].T
@@ -413,7 +420,13 @@ def semantic_output_stationary(bounds, A_out, T):
         return runs == len(np.unique(k)), "semantic"
     first_red = min(red)
     last_par = max(par)
-    return first_red > last_par, "syntactic"
+    ok = first_red > last_par
+    if ok and n_points(tb) <= MAX_POINTS:
+        V = box_points(tb) @ At.T
+        k, _, _ = row_keys(V)
+        if k is not None and 1 + int(np.count_nonzero(k[1:] != k[:-1])) != len(np.unique(k)):
+            ST.bump("observation:os_documented_rule_holds_but_output_runs_not_contiguous(non-injective-map)")
+    return ok, "syntactic"
 
 
 def restated_memory_flexible(bounds, mats, T, sizes):
@@ -971,19 +984,17 @@ def drive_search(case, cap=48, seconds=3.0, also_scheduler=True):
                 info["tiled"] = ST.search_log[0]["tiled"]
                 info["changed"] = ST.search_log[0]["changed"]
             if also_scheduler:
-                # the public entry point: first result, and the k-th one when the enumeration is known to be small
+                # the public entry point: the k-th result when the case asks for one and the enumeration is known to be
+                # small, else the first result
+                idx = case.get("idx")
                 try:
                     info["scheduler_calls"] += 1
-                    SCH.scheduler(template, schedule, extra_checks=checks)
+                    if idx is not None and info["exhausted"]:
+                        SCH.scheduler(template, schedule, extra_checks=checks, schedule_idx=idx)
+                    else:
+                        SCH.scheduler(template, schedule, extra_checks=checks)
                 except (StopIteration, IndexError) as e:
                     info["rejected"].append(e)
-                idx = case.get("idx")
-                if idx is not None and info["exhausted"]:
-                    try:
-                        info["scheduler_calls"] += 1
-                        SCH.scheduler(template, schedule, extra_checks=checks, schedule_idx=idx)
-                    except (StopIteration, IndexError) as e:
-                        info["rejected"].append(e)
     except PassTimeout:
         info["timeout"] = True
     except RecursionError as e:
